@@ -139,9 +139,8 @@ BIT_STRING_encode_oer(const asn_TYPE_descriptor_t *td,
     }
 
     if(st->bits_unused) {
-        if(st->buf[st->size - 1] & (0xff << st->bits_unused)) {
-            fix_last_byte = 1;
-        }
+        /* Whatever sits in the unused bits is not to be written */
+        fix_last_byte = 1;
     }
 
     if(cb(st->buf, st->size - fix_last_byte, app_key) < 0) {
